@@ -252,7 +252,8 @@ theorem mkdir_ok {d : Disk} (hs : SInv d) (v : Vol) (fsL : List LRec) (ch : List
     · intro y hy
       exact Or.inl (hemp4 y hy)
   have hinv4 : Inv r4 := by
-    refine ⟨hshape4, by rw [htot4, hsz4]; exact hsz, v4, _, ch', hrd4', by rw [htot4]; exact htree4, hw4, hn4, hgeo4, hprev4, hroot.len, ?_⟩
+    refine ⟨hshape4, by rw [htot4, hsz4]; exact hsz, v4, _, ch', hrd4', by rw [htot4]; exact htree4, hw4, hn4, hgeo4, hprev4, hroot.len, ?_,
+      names_after hroot hsplit hslots4 (fun _ => by rw [se.name]; exact isNameValid_no_slash nm hv)⟩
     intro y hy
     rw [hslots4] at hy
     rcases List.mem_append.mp hy with a | a
